@@ -5,6 +5,7 @@ mod proto;
 mod rng;
 mod run;
 mod c05;
+mod c06;
 mod c18;
 pub mod filters;
 
@@ -33,6 +34,7 @@ fn main() {
     let mut ctx = Ctx { tier_thorough: args[2] == "thorough", seed: args[3].parse().unwrap_or(0), out: Vec::new() };
     match args[1].as_str() {
         "C05" => c05::run(&mut ctx),
+        "C06" => c06::run(&mut ctx),
         "C18" => c18::run(&mut ctx),
         other => {
             eprintln!("unknown property {}", other);
